@@ -87,6 +87,41 @@ func discharge(obls []*Obligation, workDir string, tier string, jobs int) {
 			file := filepath.Join(workDir, fmt.Sprintf("%04d-%s-p%d.smt2", i, safeName(o.Name), o.Path))
 			os.WriteFile(file, []byte(o.Script), 0o644)
 			var outs []string
+			if o.Cover || o.Must {
+				// covers and canaries only guard against vacuity: unsat is the interesting answer, keep them cheap
+				st1, out1, d1 := runSolver(solvers[0], file, 3)
+				o.Status, o.Solver, o.Secs = st1, solvers[0].name, d1
+				if st1 != "unsat" && st1 != "sat" {
+					o.Status = "unknown"
+				}
+				o.Output = solvers[0].name + ": " + firstLines(out1, 3)
+				finishObl(o, file)
+				return
+			}
+			// stage 0: sliced query (unsat there implies unsat of the full query)
+			if o.Sliced != "" {
+				sfile := strings.TrimSuffix(file, ".smt2") + ".sliced.smt2"
+				os.WriteFile(sfile, []byte(o.Sliced), 0o644)
+				for _, sv := range solvers[:2] {
+					st0, _, d0 := runSolver(sv, sfile, 4)
+					o.Secs += d0
+					if st0 == "unsat" {
+						o.Status, o.Solver = "unsat", sv.name+" (sliced)"
+						o.Output = sv.name + ": unsat (sliced query)"
+						if os.Getenv("EVYVC_KEEP") == "" {
+							os.Remove(sfile)
+						}
+						finishObl(o, file)
+						return
+					}
+					if st0 == "sat" {
+						break
+					}
+				}
+				if os.Getenv("EVYVC_KEEP") == "" {
+					os.Remove(sfile)
+				}
+			}
 			// stage 1: one solver, short budget (most obligations are easy)
 			if st1, out1, d1 := runSolver(solvers[0], file, 2); st1 == "unsat" || st1 == "sat" {
 				o.Status, o.Solver, o.Secs = st1, solvers[0].name, d1
